@@ -39,8 +39,12 @@ def _classes():
                 self.log.append(self.tag)
             return self.result
 
+    class UserD(DisplacementMove):
+        """A user's subclass of the displacement move: still of the displacement kind."""
+
     mk = {
         "D": lambda: DisplacementMove(np.arange(2)),
+        "U": lambda: UserD(np.arange(2)),
         "E": lambda: ExchangeMove(np.arange(2)),
         "C": lambda: CellMove(),
         "G": lambda: Probe(),
@@ -128,8 +132,8 @@ def compare(real, model, where, env):
     if len(moves) != len(flat) or any(a is not b for a, b in zip(moves, flat)):
         got = [type(m).__name__ for m in moves]
         raise Mismatch(f"{where}/elements-differ", f"result holds {len(moves)} elements {got}, expected the operands' {len(flat)} elementary moves in order with multiplicity")
-    ks = set(kinds)
-    want = spec[kinds[0]] if len(ks) == 1 and kinds[0] in spec else CompositeMove
+    ks = {"D" if k == "U" else k for k in kinds}
+    want = spec[next(iter(ks))] if len(ks) == 1 and next(iter(ks)) in spec else CompositeMove
     if type(real) is not want:
         if want is CompositeMove:
             raise Mismatch(f"{where}/wrongly-specialised", f"result is {type(real).__name__} for element kinds {sorted(ks)}, expected plain CompositeMove")
@@ -310,10 +314,10 @@ def run(tier, seed):
     rep = Report("model_checking")
     acc = Acc()
     args = []
-    five = ["D", "E", "C", "G", "H"]
+    five = ["D", "E", "C", "G", "H", "U"]
     for k in (1, 2, 3):
         args.append({"k": k, "kinds": five})
-    k4 = five if tier == "thorough" else ["D", "E", "G"]
+    k4 = five if tier == "thorough" else ["D", "E", "G", "U"]
     for i in range(len(shapes(4))):
         args.append({"k": 4, "kinds": k4, "shape_lo": i, "shape_hi": i + 1})
     for r in pmap(__name__, "task_moves", args):
@@ -334,7 +338,7 @@ def run(tier, seed):
         "violating_trees": acc.n("violating_trees") + ops.n("violating_trees"),
         "invalid_multiplier_and_call_cases": ncalls,
         "distinct_results": sorted(f"{a}x{b}" for a, b in acc.sets.get("outcomes", ())),
-        "bound": f"move trees: <= 3 leaf nodes over 5 kinds, 4 leaf nodes over {len(k4)} kinds; every parenthesisation; at most one '* n' (n in 1..3) on any node, operation trees <= {3 if tier == 'quick' else 4} leaf nodes over 4 kinds; plain-composite calls: every boolean vector up to 4 elements, left- and right-nested",
+        "bound": f"move trees: <= 3 leaf nodes over 6 kinds (incl. a user subclass of DisplacementMove), 4 leaf nodes over {len(k4)} kinds; every parenthesisation; at most one '* n' (n in 1..3) on any node, operation trees <= {3 if tier == 'quick' else 4} leaf nodes over 4 kinds; plain-composite calls: every boolean vector up to 4 elements, left- and right-nested",
         "exhaustive": True,
         "samples": acc.samples[:3] or [{"note": "no sample"}],
     }
